@@ -428,31 +428,19 @@ func runC04R2(c *eng.Ctx, r *eng.RuleCtx) {
 			return extra != nil && extra(e)
 		}
 	}
-	reachOK := g.Reach(eng.Query{From: []*eng.GNode{test}, AvoidEdge: onlyEdge(okEdge, nil)})
-	// Success stores on the error side that are not under AllowFailure
-	reachErr := g.Reach(eng.Query{From: []*eng.GNode{test}, AvoidEdge: onlyEdge(errEdge, allow), AvoidNode: func(n *eng.GNode) bool { return reachOK[n] }})
-	bad := false
-	var badPos token.Pos = runNode.Node.Pos()
-	for n := range reachErr {
-		if !reachOK[n] && isStore("Success")(n) {
-			bad = true
-			badPos = n.Node.Pos()
-		}
+	_, _ = onlyEdge, isStore
+	// scenario: the run failed and the bindings do not allow failure - at every exit the status is Fail
+	notAllowed := func(fc eng.Fact) bool {
+		return fc.Y == nil && eng.IsField(info, fc.X, allowFailure) && !fc.Pos
 	}
-	r.Check(!bad, f.Key+" success-only-if-allowed", badPos, "on the error edge Success is stored only under hookMeta.AllowFailure", "a failed hook run is turned into Success without looking at allowFailure: the task is dropped and its binding contexts are discarded")
-	// without AllowFailure the error side stores Fail before it joins the ok side
-	reachNoFail := g.Reach(eng.Query{From: []*eng.GNode{test}, AvoidEdge: onlyEdge(errEdge, allow), AvoidNode: isStore("Fail")})
-	okFail := true
-	for n := range reachNoFail {
-		if isStore("Fail")(n) {
-			continue
-		}
-		if reachOK[n] || n.Exit {
-			okFail = false
-		}
+	okFail, pos, why := finalStoreIs(g, info, runNode, eng.Query{NonNil: []types.Object{errVar}, Assume: notAllowed, AvoidEdge: g.Infeasible(notAllowed)}, status, "Fail")
+	if pos == token.NoPos {
+		pos = runNode.Node.Pos()
 	}
+	r.Check(okFail, f.Key+" success-only-if-allowed", pos, "after a failed run without AllowFailure no path ends with Status=Success", "a failed hook run is turned into Success without looking at allowFailure: the task is dropped and its binding contexts are discarded ("+why+")")
+	r.Check(okFail, f.Key+" fail-otherwise", runNode.Node.Pos(), "without AllowFailure a failed run ends with Status=Fail on every path", "after a failed run that is not allowed to fail the status is not set to Fail: the task would be removed instead of retried ("+why+")")
 	_ = notAllow
-	r.Check(okFail, f.Key+" fail-otherwise", runNode.Node.Pos(), "without AllowFailure the error edge stores Status=Fail", "after a failed run that is not allowed to fail the status is not set to Fail: the task would be removed instead of retried")
+	_ = allow
 }
 
 func runC04R3(c *eng.Ctx, r *eng.RuleCtx) {
